@@ -46,67 +46,126 @@ Qed.
 Lemma split_join_nil : split_lf (join_lf []) = [[]].
 Proof. reflexivity. Qed.
 
-(* ---------- numbering ---------- *)
-Lemma compile_spec u : forall k i lit, In (OLit i lit) (compile_from k u) ->
-  (k < i <= k + length (lits u))%nat /\ nth (i - S k) (lits u) [] = lit.
+(* ---------- two programs that differ in literal contents only ---------- *)
+Lemma Forall2_nth_error {A B : Type} (R : A -> B -> Prop) (P : list A) (P' : list B) : Forall2 R P P' ->
+  forall pc, match nth_error P pc, nth_error P' pc with
+             | Some a, Some b => R a b
+             | None, None => True
+             | _, _ => False
+             end.
 Proof.
-  induction u as [|o u IH]; intros k i lit H; [destruct H|].
-  destruct o as [l|s e|c n]; cbn [compile_from lits length] in *.
-  - destruct H as [H|H].
-    + inversion H; subst. split; [lia|]. replace (S k - S k)%nat with 0%nat by lia. reflexivity.
-    + destruct (IH _ _ _ H) as [B E]. split; [lia|].
-      replace (i - S k)%nat with (S (i - S (S k)))%nat by lia. exact E.
-  - destruct H as [H|H]; [discriminate|]. apply IH. exact H.
-  - destruct H as [H|H]; [discriminate|]. apply IH. exact H.
+  induction 1 as [|a b P P' Hab _ IH]; intros pc; destruct pc as [|pc]; cbn [nth_error]; auto. apply IH.
 Qed.
 
-Definition erase_op (o : op) : op := match o with OLit i _ => OLit i [] | x => x end.
-Lemma compile_erase u : forall k, map erase_op (compile_from k u) = compile_from k (map erase u).
+Section Sim.
+Variable St : Type.
+Variable sem : sink -> bytes -> bytes.
+Variable ev_str : St -> bytes -> bytes.
+Variable ev_bool : St -> bytes -> bool.
+Variable code : bytes -> nat -> St -> option (St * bytes * nat).
+
+(* same statement apart from the contents of a literal; two code chunks may differ as long as they mean the same *)
+Definition op_sim (a b : op) : Prop :=
+  match a, b with
+  | OLit i _, OLit j _ => i = j
+  | OExpr k e, OExpr k' e' => k = k' /\ e = e'
+  | OIf c n, OIf c' n' => c = c' /\ n = n'
+  | OCode c, OCode c' => forall pc s, code c pc s = code c' pc s
+  | _, _ => False
+  end.
+
+(* the first program looks its strings up in a file that holds, at every index the second program uses, what the
+   second program's literal denotes: they render alike from every position, in every state, with every fuel *)
+Lemma exec_sim file P P' : Forall2 op_sim P P' ->
+  (forall i lit, In (OLit i lit) P' -> dev_write file i = normal_write lit) ->
+  forall fuel pc s, exec St sem ev_str ev_bool code (lk_dev file) fuel P pc s = exec St sem ev_str ev_bool code lk_normal fuel P' pc s.
+Proof.
+  intros F H. induction fuel as [|f IH]; intros pc s; [reflexivity|].
+  cbn [exec]. pose proof (Forall2_nth_error _ _ _ F pc) as N.
+  destruct (nth_error P pc) as [o|] eqn:E; destruct (nth_error P' pc) as [o'|] eqn:E'; try contradiction; [|reflexivity].
+  destruct o as [i l|k e|c n|c]; destruct o' as [i' l'|k' e'|c' n'|c']; cbn [op_sim] in N; try contradiction.
+  - subst i'. unfold lk_dev, lk_normal. rewrite (H i l') by (eapply nth_error_In; exact E').
+    destruct (normal_write l'); [rewrite IH; reflexivity|reflexivity].
+  - destruct N as [-> ->]. rewrite IH. reflexivity.
+  - destruct N as [-> ->]. apply IH.
+  - rewrite N. destruct (code c' pc s) as [[[s' out] next]|]; [rewrite IH; reflexivity|reflexivity].
+Qed.
+End Sim.
+
+(* ---------- numbering ---------- *)
+Lemma numbered_spec P : forall k i lit, numbered_from k P = true -> In (OLit i lit) P ->
+  (k < i <= k + length (op_lits P))%nat /\ nth (i - S k) (op_lits P) [] = lit.
+Proof.
+  induction P as [|o P IH]; intros k i lit N H; [destruct H|].
+  destruct o as [j l|s e|c n|c]; cbn [numbered_from op_lits length] in *.
+  - apply andb_prop in N as [Nj N]. apply Nat.eqb_eq in Nj. subst j. destruct H as [H|H].
+    + inversion H; subst. split; [lia|]. replace (S k - S k)%nat with 0%nat by lia. reflexivity.
+    + destruct (IH _ _ _ N H) as [B E]. split; [lia|].
+      replace (i - S k)%nat with (S (i - S (S k)))%nat by lia. exact E.
+  - destruct H as [H|H]; [discriminate|]. apply IH; assumption.
+  - destruct H as [H|H]; [discriminate|]. apply IH; assumption.
+  - destruct H as [H|H]; [discriminate|]. apply IH; assumption.
+Qed.
+
+(* a program whose calls are numbered 1, 2, ... finds each of its own literals in the file written from them *)
+Lemma numbered_lookup P : numbered_from 0 P = true -> forallb no_lf (op_lits P) = true ->
+  forall i lit, In (OLit i lit) P -> dev_write (text_file (op_lits P)) i = normal_write lit.
+Proof.
+  intros N Ok i lit Hin. destruct (numbered_spec _ _ _ _ N Hin) as [B Eq].
+  destruct i as [|i]; [lia|]. rewrite dev_write_join; [|exact Ok|lia].
+  unfold normal_write. replace (S i - 1)%nat with i in Eq by lia. rewrite Eq. reflexivity.
+Qed.
+
+Lemma compile_numbered u : forall k, numbered_from k (compile_from k u) = true.
 Proof.
   induction u as [|o u IH]; intros k; [reflexivity|].
-  destruct o; cbn [compile_from map erase erase_op]; rewrite IH; reflexivity.
+  destruct o; cbn [compile_from numbered_from]; rewrite ?Nat.eqb_refl; apply IH.
 Qed.
-
-Section Sound.
-Variable sem : sink -> bytes -> bytes.
-Variable ev_str : bytes -> bytes.
-Variable ev_bool : bytes -> bool.
-
-(* two programs with the same skeleton, the first looking its strings up in a file that holds the second's
-   literals at the second's indices, render alike *)
-Lemma run_sound file : forall P P' skip, map erase_op P = map erase_op P' ->
-  (forall i lit, In (OLit i lit) P' -> dev_write file i = normal_write lit) ->
-  run sem ev_str ev_bool (lk_dev file) P skip = run sem ev_str ev_bool lk_normal P' skip.
+Lemma compile_lits u : forall k, op_lits (compile_from k u) = lits u.
 Proof.
-  induction P as [|o P IH]; intros P' skip E H; destruct P' as [|o' P']; try discriminate; [reflexivity|].
-  cbn [map] in E. injection E as Eo EP.
-  assert (IH' : forall sk, run sem ev_str ev_bool (lk_dev file) P sk = run sem ev_str ev_bool lk_normal P' sk).
-  { intros sk. apply IH; [exact EP|]. intros i lit Hin. apply H. right. exact Hin. }
-  cbn [run]. destruct skip as [|k]; [|apply IH'].
-  destruct o as [i l|s e|c n]; destruct o' as [i' l'|s' e'|c' n']; cbn [erase_op] in Eo; try discriminate.
-  - injection Eo as ->. unfold lk_dev, lk_normal. rewrite (H i' l') by (left; reflexivity).
-    destruct (normal_write l'); [rewrite IH'; reflexivity|reflexivity].
-  - injection Eo as -> ->. rewrite IH'. reflexivity.
-  - injection Eo as -> ->. apply IH'.
+  induction u as [|o u IH]; intros k; [reflexivity|].
+  destruct o; cbn [compile_from op_lits lits]; rewrite IH; reflexivity.
 Qed.
 
 Definition lits_ok (u : list uop) : bool := forallb no_lf (lits u).
 
+Section Sound.
+Variable St : Type.
+Variable sem : sink -> bytes -> bytes.
+Variable ev_str : St -> bytes -> bytes.
+Variable ev_bool : St -> bytes -> bool.
+Variable code : bytes -> nat -> St -> option (St * bytes * nat).
+
+Lemma skeleton_sim u : forall u' k, skeleton u = skeleton u' -> Forall2 (op_sim St code) (compile_from k u) (compile_from k u').
+Proof.
+  induction u as [|o u IH]; intros u' k E; destruct u' as [|o' u']; try discriminate; [constructor|].
+  unfold skeleton in E. cbn [map] in E. injection E as Eo Eu.
+  destruct o as [l|s e|c n|c es]; destruct o' as [l'|s' e'|c' n'|c' es']; cbn [erase] in Eo; try discriminate;
+    cbn [compile_from]; (constructor; [|apply IH; exact Eu]); cbn [op_sim].
+  - reflexivity.
+  - injection Eo as -> ->. split; reflexivity.
+  - injection Eo as -> ->. split; reflexivity.
+  - injection Eo as -> _. reflexivity.
+Qed.
+
 (* same generated code up to the contents of string literals  =>  the compiled old program reading the new
    text file renders exactly what the newly generated program renders *)
 Theorem skeleton_sound u u' : skeleton u = skeleton u' -> lits_ok u' = true ->
-  run sem ev_str ev_bool (lk_dev (text_file (lits u'))) (compile u) 0 = run sem ev_str ev_bool lk_normal (compile u') 0.
+  forall fuel pc s,
+  exec St sem ev_str ev_bool code (lk_dev (text_file (lits u'))) fuel (compile u) pc s =
+  exec St sem ev_str ev_bool code lk_normal fuel (compile u') pc s.
 Proof.
-  intros E Ok. apply run_sound.
-  - unfold compile. rewrite !compile_erase. unfold skeleton in E. rewrite E. reflexivity.
-  - intros i lit Hin. unfold compile in Hin. destruct (compile_spec _ _ _ _ Hin) as [B Eq].
-    destruct i as [|i]; [lia|]. rewrite dev_write_join; [|exact Ok|lia].
-    unfold normal_write. replace (S i - 1)%nat with i in Eq by lia. rewrite Eq. reflexivity.
+  intros E Ok. apply exec_sim.
+  - apply skeleton_sim. exact E.
+  - unfold compile. rewrite <- (compile_lits u' 0). apply numbered_lookup; [apply compile_numbered|].
+    rewrite compile_lits. exact Ok.
 Qed.
 
 (* first half of the property: the program reading its own text file *)
 Theorem dev_equals_normal u : lits_ok u = true ->
-  run sem ev_str ev_bool (lk_dev (text_file (lits u))) (compile u) 0 = run sem ev_str ev_bool lk_normal (compile u) 0.
+  forall fuel pc s,
+  exec St sem ev_str ev_bool code (lk_dev (text_file (lits u))) fuel (compile u) pc s =
+  exec St sem ev_str ev_bool code lk_normal fuel (compile u) pc s.
 Proof. intros H. apply skeleton_sound; [reflexivity|exact H]. Qed.
 End Sound.
 
@@ -120,12 +179,14 @@ Qed.
 Lemma exprs_differ_refl a : exprs_differ a a = false.
 Proof. induction a as [|x a IH]; [reflexivity|]. cbn. rewrite bytes_eqb_refl. exact IH. Qed.
 
-(* what a negative answer means *)
-Theorem has_changed_false p u : has_changed p u = false <->
+Definition same_but_skeleton {S : Type} (p u : gen_output S) : Prop :=
   o_version (g_opts p) = o_version (g_opts u) /\ o_file (g_opts p) = o_file (g_opts u) /\ o_skip (g_opts p) = o_skip (g_opts u) /\
   length (g_literals p) = length (g_literals u) /\ g_exprs p = g_exprs u.
+
+(* what the criterion of before 75525d5 compares *)
+Theorem expr_list_criterion_false {S : Type} (p u : gen_output S) : expr_list_criterion p u = false <-> same_but_skeleton p u.
 Proof.
-  unfold has_changed. split.
+  unfold expr_list_criterion, same_but_skeleton. split.
   - intros H.
     destruct (bytes_eqb (o_version (g_opts p)) (o_version (g_opts u))) eqn:A; [|discriminate].
     destruct (bytes_eqb (o_file (g_opts p)) (o_file (g_opts u))) eqn:B; [|discriminate].
@@ -138,122 +199,140 @@ Proof.
     apply exprs_differ_refl.
 Qed.
 
+Section HasChanged.
+Variable S : Type.
+Variable eqb : S -> S -> bool.
+Hypothesis eqb_spec : forall a b, eqb a b = true <-> a = b.
+
+(* what a negative answer means: the old comparisons and EQUAL SKELETONS *)
+Theorem has_changed_false (p u : gen_output S) : has_changed eqb p u = false <-> same_but_skeleton p u /\ g_skel p = g_skel u.
+Proof.
+  unfold has_changed. rewrite <- expr_list_criterion_false. split.
+  - intros H. destruct (expr_list_criterion p u); [discriminate|]. split; [reflexivity|].
+    destruct (eqb (g_skel p) (g_skel u)) eqn:E; [apply eqb_spec; exact E|discriminate].
+  - intros [-> E]. apply eqb_spec in E. rewrite E. reflexivity.
+Qed.
+
 (* sequences of edits: "no recompilation needed" composes, so comparing with the previous generation (as the
    event handler does) is the same as comparing with the generation that was last compiled *)
-Theorem has_changed_trans a b c : has_changed a b = false -> has_changed b c = false -> has_changed a c = false.
+Theorem has_changed_trans a b c : has_changed eqb a b = false -> has_changed eqb b c = false -> has_changed eqb a c = false.
 Proof.
-  rewrite !has_changed_false. intros [A1 [A2 [A3 [A4 A5]]]] [B1 [B2 [B3 [B4 B5]]]].
+  rewrite !has_changed_false. unfold same_but_skeleton. intros [[A1 [A2 [A3 [A4 A5]]]] A6] [[B1 [B2 [B3 [B4 B5]]]] B6].
   repeat split; etransitivity; eassumption.
 Qed.
-Theorem has_changed_refl a : has_changed a a = false.
-Proof. apply has_changed_false. repeat split. Qed.
-Theorem has_changed_sym a b : has_changed a b = false -> has_changed b a = false.
-Proof. rewrite !has_changed_false. intros [A1 [A2 [A3 [A4 A5]]]]. repeat split; symmetry; assumption. Qed.
+Theorem has_changed_refl a : has_changed eqb a a = false.
+Proof. apply has_changed_false. unfold same_but_skeleton. repeat split. Qed.
+Theorem has_changed_sym a b : has_changed eqb a b = false -> has_changed eqb b a = false.
+Proof. rewrite !has_changed_false. unfold same_but_skeleton. intros [[A1 [A2 [A3 [A4 A5]]]] A6]. repeat split; symmetry; assumption. Qed.
 
-(* ---------- the coded criterion does not imply an equal skeleton: three witnesses ---------- *)
-Definition o0 : gen_opts := {| o_version := bs "v"; o_file := bs "t.templ"; o_skip := false; o_date := [] |}.
+Theorem has_changed_equivalence :
+  (forall a, has_changed eqb a a = false) /\
+  (forall a b, has_changed eqb a b = false -> has_changed eqb b a = false) /\
+  (forall a b c, has_changed eqb a b = false -> has_changed eqb b c = false -> has_changed eqb a c = false).
+Proof. exact (conj has_changed_refl (conj has_changed_sym has_changed_trans)). Qed.
 
-(* (a) same expression, different writer: title={ c } -> style={ c } *)
-Definition wa  : list uop := [ULit (bs "<p title=\"""); UExpr SAttr (bs "c"); ULit (bs "\""></p>")].
-Definition wa' : list uop := [ULit (bs "<p style=\"""); UExpr SStyle (bs "c"); ULit (bs "\""></p>")].
-(* (b) { s } moved into the preceding if-body *)
-Definition wb  : list uop := [UIf (bs "b") 1; ULit (bs "<i>x</i>"); UExpr SText (bs "s"); ULit (bs "<hr>")].
-Definition wb' : list uop := [UIf (bs "b") 2; ULit (bs "<i>x</i>"); UExpr SText (bs "s"); ULit (bs "<hr>")].
-(* (c) a literal and an expression swapped *)
-Definition wc  (l : byte) : list uop := [ULit [l]; UExpr SText (bs "s")].
-Definition wc' (l : byte) : list uop := [UExpr SText (bs "s"); ULit [l]].
+(* the fix only adds recompilations *)
+Theorem has_changed_stricter p u : expr_list_criterion p u = true -> has_changed eqb p u = true.
+Proof. unfold has_changed. intros ->. reflexivity. Qed.
+End HasChanged.
 
-Lemma app_inv_mid (a b x y : bytes) : a ++ x ++ b = a ++ y ++ b -> x = y.
-Proof. intros H. apply app_inv_head in H. apply app_inv_tail in H. exact H. Qed.
-
-Theorem refuted_sink (sem : sink -> bytes -> bytes) (x : bytes) : sem SAttr x <> sem SStyle x ->
-  has_changed (gen_out o0 wa) (gen_out o0 wa') = false /\ lits_ok wa' = true /\
-  run sem (fun _ => x) (fun _ => true) (lk_dev (text_file (lits wa'))) (compile wa) 0 <>
-  run sem (fun _ => x) (fun _ => true) lk_normal (compile wa') 0.
+Lemma list_eqb_spec {A : Type} (eqb : A -> A -> bool) : (forall a b, eqb a b = true <-> a = b) ->
+  forall a b, list_eqb eqb a b = true <-> a = b.
 Proof.
-  intros D. split; [vm_compute; reflexivity|]. split; [vm_compute; reflexivity|].
-  assert (L : run sem (fun _ => x) (fun _ => true) (lk_dev (text_file (lits wa'))) (compile wa) 0
-              = Some (bs "<p style=""" ++ sem SAttr x ++ bs """></p>")).
-  { unfold wa, compile. cbn [compile_from run].
-    replace (lk_dev (text_file (lits wa')) 1 (bs "<p title=\""")) with (Some (bs "<p style=""")) by (vm_compute; reflexivity).
-    replace (lk_dev (text_file (lits wa')) 2 (bs "\""></p>")) with (Some (bs """></p>")) by (vm_compute; reflexivity).
-    cbn [option_map app]. rewrite app_nil_r. reflexivity. }
-  assert (R : run sem (fun _ => x) (fun _ => true) lk_normal (compile wa') 0
-              = Some (bs "<p style=""" ++ sem SStyle x ++ bs """></p>")).
-  { unfold wa', compile. cbn [compile_from run].
-    replace (lk_normal 1 (bs "<p style=\""")) with (Some (bs "<p style=""")) by (vm_compute; reflexivity).
-    replace (lk_normal 2 (bs "\""></p>")) with (Some (bs """></p>")) by (vm_compute; reflexivity).
-    cbn [option_map app]. rewrite app_nil_r. reflexivity. }
-  rewrite L, R. intros E. injection E as E. apply app_inv_tail in E. contradiction.
+  intros Sp. induction a as [|x a IH]; intros b; destruct b as [|y b]; cbn [list_eqb]; split; intros H; try discriminate; try reflexivity.
+  - apply andb_prop in H as [H1 H2]. apply Sp in H1. apply IH in H2. subst. reflexivity.
+  - injection H as -> ->. apply andb_true_intro. split; [apply Sp; reflexivity|apply IH; reflexivity].
+Qed.
+Lemma sink_eqb_spec k k' : sink_eqb k k' = true <-> k = k'.
+Proof.
+  destruct k, k'; cbn [sink_eqb]; split; intros H; try discriminate; try reflexivity.
+  - apply N.eqb_eq in H. subst. reflexivity.
+  - injection H as ->. apply N.eqb_refl.
+Qed.
+Lemma uop_eqb_spec a b : uop_eqb a b = true <-> a = b.
+Proof.
+  destruct a as [l|k e|c n|c es], b as [l'|k' e'|c' n'|c' es']; cbn [uop_eqb]; split; intros H; try discriminate.
+  - apply bytes_eqb_eq in H. subst. reflexivity.
+  - injection H as ->. apply bytes_eqb_refl.
+  - apply andb_prop in H as [H1 H2]. apply bytes_eqb_eq in H1. apply sink_eqb_spec in H2. subst. reflexivity.
+  - injection H as -> ->. rewrite bytes_eqb_refl. apply sink_eqb_spec. reflexivity.
+  - apply andb_prop in H as [H1 H2]. apply bytes_eqb_eq in H1. apply Nat.eqb_eq in H2. subst. reflexivity.
+  - injection H as -> ->. rewrite bytes_eqb_refl, Nat.eqb_refl. reflexivity.
+  - apply andb_prop in H as [H1 H2]. apply bytes_eqb_eq in H1. apply (list_eqb_spec _ bytes_eqb_eq) in H2. subst. reflexivity.
+  - injection H as -> ->. rewrite bytes_eqb_refl. apply (list_eqb_spec _ bytes_eqb_eq). reflexivity.
+Qed.
+Lemma skel_eqb_spec a b : skel_eqb a b = true <-> a = b.
+Proof. apply list_eqb_spec. exact uop_eqb_spec. Qed.
+
+(* literal count and expression list are functions of the skeleton *)
+Lemma lits_skeleton u : length (lits (skeleton u)) = length (lits u).
+Proof. unfold skeleton. induction u as [|o u IH]; [reflexivity|]. destruct o; cbn [map erase lits length]; rewrite ?IH; reflexivity. Qed.
+Lemma exprs_skeleton u : exprs (skeleton u) = exprs u.
+Proof. unfold skeleton. induction u as [|o u IH]; [reflexivity|]. destruct o; cbn [map erase exprs]; rewrite ?IH; reflexivity. Qed.
+
+(* at the level of compiled templates the answer is exactly: same options and same skeleton
+   (so a different skeleton always asks for recompilation, and an equal one with equal options never does) *)
+Theorem has_changed_iff_skeleton o o' u u' : has_changed skel_eqb (gen_out o u) (gen_out o' u') = false <->
+  o_version o = o_version o' /\ o_file o = o_file o' /\ o_skip o = o_skip o' /\ skeleton u = skeleton u'.
+Proof.
+  rewrite (has_changed_false _ _ skel_eqb_spec). unfold same_but_skeleton. cbn [gen_out g_opts g_literals g_exprs g_skel]. split.
+  - intros [[A [B [C _]]] E]. auto.
+  - intros [A [B [C E]]]. repeat split; try assumption.
+    + rewrite <- (lits_skeleton u), <- (lits_skeleton u'), E. reflexivity.
+    + rewrite <- (exprs_skeleton u), <- (exprs_skeleton u'), E. reflexivity.
 Qed.
 
-Theorem refuted_control_flow (sem : sink -> bytes -> bytes) (x : bytes) : sem SText x <> [] ->
-  has_changed (gen_out o0 wb) (gen_out o0 wb') = false /\ lits_ok wb' = true /\
-  run sem (fun _ => x) (fun _ => false) (lk_dev (text_file (lits wb'))) (compile wb) 0 <>
-  run sem (fun _ => x) (fun _ => false) lk_normal (compile wb') 0.
+(* ---------- the recompile decision is sound ---------- *)
+Section Decision.
+Variable St : Type.
+Variable sem : sink -> bytes -> bytes.
+Variable ev_str : St -> bytes -> bytes.
+Variable ev_bool : St -> bytes -> bool.
+Variable code : bytes -> nat -> St -> option (St * bytes * nat).
+
+Theorem recompile_decision_sound o o' u u' : lits_ok u' = true ->
+  has_changed skel_eqb (gen_out o u) (gen_out o' u') = false ->
+  forall fuel pc s,
+  exec St sem ev_str ev_bool code (lk_dev (text_file (lits u'))) fuel (compile u) pc s =
+  exec St sem ev_str ev_bool code lk_normal fuel (compile u') pc s.
 Proof.
-  intros D. split; [vm_compute; reflexivity|]. split; [vm_compute; reflexivity|].
-  assert (L : run sem (fun _ => x) (fun _ => false) (lk_dev (text_file (lits wb'))) (compile wb) 0
-              = Some (sem SText x ++ bs "<hr>")).
-  { unfold wb, compile. cbn [compile_from run].
-    replace (lk_dev (text_file (lits wb')) 2 (bs "<hr>")) with (Some (bs "<hr>")) by (vm_compute; reflexivity).
-    cbn [option_map app]. rewrite app_nil_r. reflexivity. }
-  assert (R : run sem (fun _ => x) (fun _ => false) lk_normal (compile wb') 0 = Some (bs "<hr>")).
-  { unfold wb', compile. cbn [compile_from run].
-    replace (lk_normal 2 (bs "<hr>")) with (Some (bs "<hr>")) by (vm_compute; reflexivity). reflexivity. }
-  rewrite L, R. intros E. injection E as E.
-  assert (length (sem SText x ++ bs "<hr>") = length (bs "<hr>")) as Len by (rewrite E; reflexivity).
-  rewrite app_length in Len. destruct (sem SText x); [congruence|cbn in Len; lia].
+  intros Ok H. apply skeleton_sound; [|exact Ok]. apply has_changed_iff_skeleton in H. apply H.
 Qed.
 
-Theorem refuted_order (sem : sink -> bytes -> bytes) (x : bytes) (c0 : byte) (rest : bytes) : sem SText x = c0 :: rest ->
-  exists l : byte,
-  has_changed (gen_out o0 (wc l)) (gen_out o0 (wc' l)) = false /\ lits_ok (wc' l) = true /\
-  run sem (fun _ => x) (fun _ => true) (lk_dev (text_file (lits (wc' l)))) (compile (wc l)) 0 <>
-  run sem (fun _ => x) (fun _ => true) lk_normal (compile (wc' l)) 0.
+(* a chain of edits each of which the handler answers "text only" (it compares every generation with the one before) *)
+Fixpoint text_only_chain (o : gen_opts) (u : list uop) (rest : list (gen_opts * list uop)) : bool :=
+  match rest with
+  | [] => true
+  | (o', u') :: r => negb (has_changed skel_eqb (gen_out o u) (gen_out o' u')) && text_only_chain o' u' r
+  end.
+
+Lemma chain_last o u rest : text_only_chain o u rest = true ->
+  has_changed skel_eqb (gen_out o u) (gen_out (fst (last rest (o, u))) (snd (last rest (o, u)))) = false.
 Proof.
-  intros HS.
-  assert (G : forall l : byte, l <> c0 -> unquote [l] = Some [l] -> no_lf [l] = true ->
-     has_changed (gen_out o0 (wc l)) (gen_out o0 (wc' l)) = false /\ lits_ok (wc' l) = true /\
-     run sem (fun _ => x) (fun _ => true) (lk_dev (text_file (lits (wc' l)))) (compile (wc l)) 0 <>
-     run sem (fun _ => x) (fun _ => true) lk_normal (compile (wc' l)) 0).
-  { intros l Hl U NL. split; [apply has_changed_false; repeat split|]. split; [unfold lits_ok; cbn; cbn in NL; rewrite NL; reflexivity|].
-    unfold wc, wc', compile. cbn [compile_from run lits]. unfold lk_dev, lk_normal, normal_write.
-    rewrite (dev_write_join [[l]] 0); [|cbn; cbn in NL; rewrite NL; reflexivity|cbn; lia]. cbn [nth]. rewrite U. rewrite HS.
-    cbn [option_map app]. intros E. injection E as E. congruence. }
-  destruct (Byte.eqb c0 x61) eqn:E.
-  - apply byte_eqb_eq in E. subst. exists x62. apply G; [discriminate|vm_compute; reflexivity|vm_compute; reflexivity].
-  - apply byte_eqb_neq in E. exists x61. apply G; [congruence|vm_compute; reflexivity|vm_compute; reflexivity].
+  revert o u. induction rest as [|[o1 u1] r IH]; intros o u H.
+  - cbn [last fst snd]. apply (has_changed_refl _ _ skel_eqb_spec).
+  - cbn [text_only_chain] in H. apply andb_prop in H as [H1 H2]. apply negb_true_iff in H1.
+    specialize (IH _ _ H2).
+    assert (L : last ((o1, u1) :: r) (o, u) = last r (o1, u1)).
+    { clear. revert o1 u1. induction r as [|x r IH]; intros o1 u1; [reflexivity|].
+      change (last ((o1, u1) :: x :: r) (o, u)) with (last (x :: r) (o, u)). destruct x as [o2 u2]. rewrite IH.
+      change (last ((o2, u2) :: r) (o1, u1)) with (match r with [] => (o2, u2) | _ :: _ => last r (o1, u1) end).
+      destruct r; [reflexivity|]. clear. revert p. induction r as [|y r IH]; intros p; [reflexivity|].
+      change (last (p :: y :: r) (o2, u2)) with (last (y :: r) (o2, u2)).
+      change (last (p :: y :: r) (o1, u1)) with (last (y :: r) (o1, u1)). apply IH. }
+    rewrite L. eapply (has_changed_trans _ _ skel_eqb_spec); eassumption.
 Qed.
 
-(* ---------- a guard under which the coded criterion is enough ---------- *)
-Lemma alternating_skeleton n : forall u u', (length u <= n)%nat -> alternating u = true -> alternating u' = true ->
-  exprs u = exprs u' -> skeleton u = skeleton u'.
+(* the program compiled before the first edit, reading the text file of the last version, renders what a fresh
+   build of the last version renders *)
+Theorem text_only_chain_sound o u rest : text_only_chain o u rest = true -> lits_ok (snd (last rest (o, u))) = true ->
+  forall fuel pc s,
+  exec St sem ev_str ev_bool code (lk_dev (text_file (lits (snd (last rest (o, u)))))) fuel (compile u) pc s =
+  exec St sem ev_str ev_bool code lk_normal fuel (compile (snd (last rest (o, u)))) pc s.
 Proof.
-  induction n as [|n IH]; intros u u' L A A' E.
-  - destruct u; [discriminate|cbn in L; lia].
-  - destruct u as [|o u]; [discriminate|]. destruct u' as [|o' u']; [discriminate|].
-    destruct o as [l| |]; try discriminate. destruct o' as [l'| |]; try discriminate.
-    cbn [alternating] in A, A'.
-    destruct u as [|p u]; destruct u' as [|p' u'].
-    + reflexivity.
-    + destruct p' as [|k' e'|]; try discriminate; destruct k'; discriminate.
-    + destruct p as [|k e|]; try discriminate; destruct k; discriminate.
-    + destruct p as [|k e|]; try discriminate. destruct k; try discriminate.
-      destruct p' as [|k' e'|]; try discriminate. destruct k'; try discriminate.
-      cbn [exprs] in E. injection E as -> E.
-      unfold skeleton. cbn [map erase]. f_equal. f_equal. apply (IH u u'); [cbn [length] in L; lia|exact A|exact A'|exact E].
+  intros H Ok. eapply recompile_decision_sound; [exact Ok|]. apply chain_last. exact H.
 Qed.
-
-Theorem has_changed_partial (sem : sink -> bytes -> bytes) (ev_str : bytes -> bytes) (ev_bool : bytes -> bool) o o' u u' :
-  alternating u = true -> alternating u' = true -> lits_ok u' = true ->
-  has_changed (gen_out o u) (gen_out o' u') = false ->
-  run sem ev_str ev_bool (lk_dev (text_file (lits u'))) (compile u) 0 = run sem ev_str ev_bool lk_normal (compile u') 0.
-Proof.
-  intros A A' Ok H. apply skeleton_sound; [|exact Ok].
-  apply has_changed_false in H. destruct H as [_ [_ [_ [_ E]]]]. cbn [gen_out g_exprs] in E.
-  apply (alternating_skeleton (length u)); [apply le_n|exact A|exact A'|exact E].
-Qed.
+End Decision.
 
 (* ---------- literals built by the generator: file round trip and lookup ---------- *)
 Section Generated.
@@ -287,23 +366,320 @@ Proof.
 Qed.
 End Generated.
 
-Theorem has_changed_equivalence :
-  (forall a, has_changed a a = false) /\
-  (forall a b, has_changed a b = false -> has_changed b a = false) /\
-  (forall a b c, has_changed a b = false -> has_changed b c = false -> has_changed a c = false).
-Proof. exact (conj has_changed_refl (conj has_changed_sym has_changed_trans)). Qed.
 
-Theorem has_changed_refuted : forall sem : sink -> bytes -> bytes,
-  (forall x, sem SAttr x <> sem SStyle x ->
-     has_changed (gen_out o0 wa) (gen_out o0 wa') = false /\ lits_ok wa' = true /\
-     run sem (fun _ => x) (fun _ => true) (lk_dev (text_file (lits wa'))) (compile wa) 0 <>
-     run sem (fun _ => x) (fun _ => true) lk_normal (compile wa') 0) /\
-  (forall x, sem SText x <> [] ->
-     has_changed (gen_out o0 wb) (gen_out o0 wb') = false /\ lits_ok wb' = true /\
-     run sem (fun _ => x) (fun _ => false) (lk_dev (text_file (lits wb'))) (compile wb) 0 <>
-     run sem (fun _ => x) (fun _ => false) lk_normal (compile wb') 0) /\
-  (forall x c0 rest, sem SText x = c0 :: rest -> exists l : byte,
-     has_changed (gen_out o0 (wc l)) (gen_out o0 (wc' l)) = false /\ lits_ok (wc' l) = true /\
-     run sem (fun _ => x) (fun _ => true) (lk_dev (text_file (lits (wc' l)))) (compile (wc l)) 0 <>
-     run sem (fun _ => x) (fun _ => true) lk_normal (compile (wc' l)) 0).
-Proof. intros sem. exact (conj (refuted_sink sem) (conj (refuted_control_flow sem) (refuted_order sem))). Qed.
+(* ---------- regression: the criterion of before 75525d5 does not imply an equal skeleton - three witnesses ---------- *)
+Definition o0 : gen_opts := {| o_version := bs "v"; o_file := bs "t.templ"; o_skip := false; o_date := [] |}.
+
+(* (a) same expression, different writer: title={ c } -> style={ c } *)
+Definition wa  : list uop := [ULit (bs "<p title=\"""); UExpr SAttr (bs "c"); ULit (bs "\""></p>")].
+Definition wa' : list uop := [ULit (bs "<p style=\"""); UExpr SStyle (bs "c"); ULit (bs "\""></p>")].
+(* (b) { s } moved into the preceding if-body *)
+Definition wb  : list uop := [UIf (bs "b") 1; ULit (bs "<i>x</i>"); UExpr SText (bs "s"); ULit (bs "<hr>")].
+Definition wb' : list uop := [UIf (bs "b") 2; ULit (bs "<i>x</i>"); UExpr SText (bs "s"); ULit (bs "<hr>")].
+(* (c) a literal and an expression swapped *)
+Definition wc  (l : byte) : list uop := [ULit [l]; UExpr SText (bs "s")].
+Definition wc' (l : byte) : list uop := [UExpr SText (bs "s"); ULit [l]].
+
+(* the statement of one witness: the old criterion answers "text only", the repaired HasChanged answers "recompile",
+   and the compiled old program reading the new text file does render other bytes than the fresh build
+   (fuel 8 is more than the number of statements: both runs complete) *)
+Definition regression (St : Type) (sem : sink -> bytes -> bytes) (code : bytes -> nat -> St -> option (St * bytes * nat))
+  (x : bytes) (b : bool) (s : St) (u u' : list uop) : Prop :=
+  expr_list_criterion (gen_out o0 u) (gen_out o0 u') = false /\
+  has_changed skel_eqb (gen_out o0 u) (gen_out o0 u') = true /\ lits_ok u' = true /\
+  exec St sem (fun _ _ => x) (fun _ _ => b) code (lk_dev (text_file (lits u'))) 8 (compile u) 0 s <>
+  exec St sem (fun _ _ => x) (fun _ _ => b) code lk_normal 8 (compile u') 0 s.
+
+Section Regression.
+Variable St : Type.
+Variable sem : sink -> bytes -> bytes.
+Variable code : bytes -> nat -> St -> option (St * bytes * nat).
+Variable s : St.
+
+Theorem refuted_sink (x : bytes) : sem SAttr x <> sem SStyle x -> regression St sem code x true s wa wa'.
+Proof.
+  intros D. split; [vm_compute; reflexivity|]. split; [vm_compute; reflexivity|]. split; [vm_compute; reflexivity|].
+  assert (L : exec St sem (fun _ _ => x) (fun _ _ => true) code (lk_dev (text_file (lits wa'))) 8 (compile wa) 0 s
+              = Some (bs "<p style=""" ++ sem SAttr x ++ bs """></p>")).
+  { unfold wa, compile. cbn [compile_from exec nth_error].
+    replace (lk_dev (text_file (lits wa')) 1 (bs "<p title=\""")) with (Some (bs "<p style=""")) by (vm_compute; reflexivity).
+    replace (lk_dev (text_file (lits wa')) 2 (bs "\""></p>")) with (Some (bs """></p>")) by (vm_compute; reflexivity).
+    cbn [option_map app]. rewrite app_nil_r. reflexivity. }
+  assert (R : exec St sem (fun _ _ => x) (fun _ _ => true) code lk_normal 8 (compile wa') 0 s
+              = Some (bs "<p style=""" ++ sem SStyle x ++ bs """></p>")).
+  { unfold wa', compile. cbn [compile_from exec nth_error].
+    replace (lk_normal 1 (bs "<p style=\""")) with (Some (bs "<p style=""")) by (vm_compute; reflexivity).
+    replace (lk_normal 2 (bs "\""></p>")) with (Some (bs """></p>")) by (vm_compute; reflexivity).
+    cbn [option_map app]. rewrite app_nil_r. reflexivity. }
+  rewrite L, R. intros E. injection E as E. apply app_inv_tail in E. contradiction.
+Qed.
+
+Theorem refuted_control_flow (x : bytes) : sem SText x <> [] -> regression St sem code x false s wb wb'.
+Proof.
+  intros D. split; [vm_compute; reflexivity|]. split; [vm_compute; reflexivity|]. split; [vm_compute; reflexivity|].
+  assert (L : exec St sem (fun _ _ => x) (fun _ _ => false) code (lk_dev (text_file (lits wb'))) 8 (compile wb) 0 s
+              = Some (sem SText x ++ bs "<hr>")).
+  { unfold wb, compile. cbn [compile_from exec nth_error Nat.add].
+    replace (lk_dev (text_file (lits wb')) 2 (bs "<hr>")) with (Some (bs "<hr>")) by (vm_compute; reflexivity).
+    cbn [option_map app]. rewrite app_nil_r. reflexivity. }
+  assert (R : exec St sem (fun _ _ => x) (fun _ _ => false) code lk_normal 8 (compile wb') 0 s = Some (bs "<hr>")).
+  { unfold wb', compile. cbn [compile_from exec nth_error Nat.add].
+    replace (lk_normal 2 (bs "<hr>")) with (Some (bs "<hr>")) by (vm_compute; reflexivity). reflexivity. }
+  rewrite L, R. intros E. injection E as E.
+  assert (length (sem SText x ++ bs "<hr>") = length (bs "<hr>")) as Len by (rewrite E; reflexivity).
+  rewrite app_length in Len. destruct (sem SText x); [congruence|cbn in Len; lia].
+Qed.
+
+Theorem refuted_order (x : bytes) (c0 : byte) (rest : bytes) : sem SText x = c0 :: rest ->
+  exists l : byte, regression St sem code x true s (wc l) (wc' l).
+Proof.
+  intros HS.
+  assert (G : forall l : byte, l <> c0 -> unquote [l] = Some [l] -> no_lf [l] = true -> regression St sem code x true s (wc l) (wc' l)).
+  { intros l Hl U NL. split; [apply expr_list_criterion_false; unfold same_but_skeleton; repeat split|].
+    split; [unfold has_changed; replace (expr_list_criterion (gen_out o0 (wc l)) (gen_out o0 (wc' l))) with false
+              by (symmetry; apply expr_list_criterion_false; unfold same_but_skeleton; repeat split); reflexivity|].
+    split; [unfold lits_ok; cbn; cbn in NL; rewrite NL; reflexivity|].
+    unfold wc, wc', compile. cbn [compile_from exec nth_error lits]. unfold lk_dev, lk_normal, normal_write.
+    rewrite (dev_write_join [[l]] 0); [|cbn; cbn in NL; rewrite NL; reflexivity|cbn; lia]. cbn [nth]. rewrite U. rewrite HS.
+    cbn [option_map app]. intros E. injection E as E. congruence. }
+  destruct (Byte.eqb c0 x61) eqn:E.
+  - apply byte_eqb_eq in E. subst. exists x62. apply G; [discriminate|vm_compute; reflexivity|vm_compute; reflexivity].
+  - apply byte_eqb_neq in E. exists x61. apply G; [congruence|vm_compute; reflexivity|vm_compute; reflexivity].
+Qed.
+End Regression.
+
+Theorem expr_list_criterion_refuted : forall (St : Type) (sem : sink -> bytes -> bytes)
+  (code : bytes -> nat -> St -> option (St * bytes * nat)) (s : St),
+  (forall x, sem SAttr x <> sem SStyle x -> regression St sem code x true s wa wa') /\
+  (forall x, sem SText x <> [] -> regression St sem code x false s wb wb') /\
+  (forall x c0 rest, sem SText x = c0 :: rest -> exists l : byte, regression St sem code x true s (wc l) (wc' l)).
+Proof. intros St sem code s. exact (conj (refuted_sink St sem code s) (conj (refuted_control_flow St sem code s) (refuted_order St sem code s))). Qed.
+
+(* ---------- the skeleton of generated code: text level ---------- *)
+Lemma strip_spec p : forall s r, strip p s = Some r <-> s = p ++ r.
+Proof.
+  induction p as [|a p IH]; intros s r; cbn [strip app].
+  - split; [intros H; injection H as ->; reflexivity|intros ->; reflexivity].
+  - destruct s as [|b s]; [split; [discriminate|discriminate]|].
+    destruct (Byte.eqb a b) eqn:E.
+    + apply byte_eqb_eq in E. subst b. rewrite IH. split; [intros ->; reflexivity|intros H; injection H as ->; reflexivity].
+    + apply byte_eqb_neq in E. split; [discriminate|intros H; injection H as -> _; congruence].
+Qed.
+Lemma strip_app p r : strip p (p ++ r) = Some r.
+Proof. apply strip_spec. reflexivity. Qed.
+
+Definition stops (f : byte -> bool) (b : bytes) : Prop := match b with [] => True | c :: _ => f c = false end.
+Lemma span_spec f : forall s a b, span f s = (a, b) -> s = a ++ b /\ forallb f a = true /\ stops f b.
+Proof.
+  induction s as [|c s IH]; intros a b H; cbn [span] in H.
+  - injection H as <- <-. repeat split.
+  - destruct (f c) eqn:E.
+    + destruct (span f s) as [a' b'] eqn:Sp. injection H as <- <-. destruct (IH _ _ eq_refl) as [-> [Fa St]].
+      cbn [forallb app]. rewrite E, Fa. repeat split. exact St.
+    + injection H as <- <-. repeat split. exact E.
+Qed.
+Lemma span_app f : forall a b, forallb f a = true -> stops f b -> span f (a ++ b) = (a, b).
+Proof.
+  induction a as [|c a IH]; intros b Fa St; cbn [app].
+  - destruct b as [|d b]; [reflexivity|]. cbn [span]. cbn [stops] in St. rewrite St. reflexivity.
+  - cbn [forallb] in Fa. apply andb_prop in Fa as [Fc Fa]. cbn [span]. rewrite Fc, (IH b Fa St). reflexivity.
+Qed.
+Lemma strip_end_spec p s r : strip_end p s = Some r <-> s = r ++ p.
+Proof.
+  unfold strip_end. split.
+  - intros H. destruct (strip (rev p) (rev s)) as [x|] eqn:E; [|discriminate]. cbn [option_map] in H. injection H as <-.
+    apply strip_spec in E. apply (f_equal (@rev byte)) in E. rewrite rev_involutive, rev_app_distr, rev_involutive in E. exact E.
+  - intros ->. rewrite rev_app_distr, strip_app. cbn [option_map]. rewrite rev_involutive. reflexivity.
+Qed.
+
+Lemma ws_prefix_stops : forall r, stops is_tab (ws_prefix ++ r).
+Proof. intros r. vm_compute. reflexivity. Qed.
+Lemma ws_open_stops : forall r, stops is_digit (ws_open ++ r).
+Proof. intros r. vm_compute. reflexivity. Qed.
+
+(* ws_parse recognises exactly the lines  TABS prefix DIGITS , "LIT")  and returns their parts *)
+Lemma ws_parse_spec l tb ds lit : ws_parse l = Some (tb, ds, lit) ->
+  l = ws_line tb ds lit /\ forallb is_tab tb = true /\ forallb is_digit ds = true /\ ds <> [].
+Proof.
+  unfold ws_parse, ws_line. intros H.
+  destruct (span is_tab l) as [tb0 r] eqn:S1. apply span_spec in S1 as [-> [T1 _]].
+  destruct (strip ws_prefix r) as [r1|] eqn:S2; [|discriminate]. apply strip_spec in S2 as ->.
+  destruct (span is_digit r1) as [ds0 r2] eqn:S3. apply span_spec in S3 as [-> [T3 _]].
+  destruct ds0 as [|d ds0]; [discriminate|].
+  destruct (strip ws_open r2) as [r3|] eqn:S4; [|discriminate]. apply strip_spec in S4 as ->.
+  destruct (strip_end ws_close r3) as [lit0|] eqn:S5; [|discriminate]. apply strip_end_spec in S5 as ->.
+  injection H as <- <- <-. split; [|split; [exact T1|split; [exact T3|discriminate]]].
+  reflexivity.
+Qed.
+Lemma ws_parse_line tb ds lit : forallb is_tab tb = true -> forallb is_digit ds = true -> ds <> [] ->
+  ws_parse (ws_line tb ds lit) = Some (tb, ds, lit).
+Proof.
+  intros T D N. unfold ws_parse, ws_line.
+  rewrite (span_app is_tab tb _ T (ws_prefix_stops _)). rewrite strip_app.
+  rewrite (span_app is_digit ds _ D (ws_open_stops _)). destruct ds as [|d ds]; [congruence|].
+  rewrite strip_app. replace (strip_end ws_close (lit ++ ws_close)) with (Some lit) by (symmetry; apply strip_end_spec; reflexivity).
+  reflexivity.
+Qed.
+
+(* a line whose positions were erased ends with a closing brace: it is not a WriteString line *)
+Lemma ws_line_rev tb ds lit : exists t, rev (ws_line tb ds lit) = x29 :: t.
+Proof.
+  unfold ws_line. rewrite !rev_app_distr. cbn [ws_close rev app]. eexists. reflexivity.
+Qed.
+Lemma erase_pos_cases l : erase_pos l = l \/ exists y, erase_pos l = y ++ pos_erased.
+Proof.
+  unfold erase_pos. destruct (span is_tab l) as [tb r]. destruct (strip err_prefix r); [|left; reflexivity].
+  destruct (strip [x7d] (rev l)) as [a|]; [|left; reflexivity]. destruct (span is_digit a) as [c a1].
+  destruct (strip col_rev a1) as [a2|]; [|left; reflexivity]. destruct (span is_digit a2) as [ln a3].
+  destruct (strip line_rev a3) as [a4|]; [|left; reflexivity]. right. eexists. reflexivity.
+Qed.
+Lemma erase_pos_not_ws l : ws_parse l = None -> ws_parse (erase_pos l) = None.
+Proof.
+  intros H. destruct (erase_pos_cases l) as [->|[y E]]; [exact H|]. rewrite E.
+  destruct (ws_parse (y ++ pos_erased)) as [[[tb ds] lit]|] eqn:W; [|reflexivity].
+  apply ws_parse_spec in W as [W _]. destruct (ws_line_rev tb ds lit) as [t R]. rewrite <- W in R.
+  rewrite rev_app_distr in R. cbn [pos_erased] in R. vm_compute (rev (bs ", Line: , Col: }")) in R. cbn [app] in R. discriminate.
+Qed.
+
+(* erase the literal of a WriteString line, the positions of any other line *)
+Definition erase_lop (o : op) : op := match o with OLit i _ => OLit i [] | OCode c => OCode (erase_pos c) | x => x end.
+
+Lemma skel_line_ws l tb ds lit : ws_parse l = Some (tb, ds, lit) -> ws_parse (skel_line l) = Some (tb, ds, []).
+Proof.
+  intros H. unfold skel_line. rewrite H. apply ws_parse_spec in H as [_ [T [D N]]]. apply ws_parse_line; assumption.
+Qed.
+Lemma skel_line_not_ws l : ws_parse l = None -> ws_parse (skel_line l) = None.
+Proof. intros H. unfold skel_line. rewrite H. apply erase_pos_not_ws. exact H. Qed.
+
+(* ws_parse recognises exactly the WriteString lines; the skeleton of such a line is the line with an empty literal;
+   the skeleton of any other line is the line without its error position, which is never a WriteString line *)
+Theorem ws_recognition :
+  (forall l tb ds lit, ws_parse l = Some (tb, ds, lit) ->
+     l = ws_line tb ds lit /\ forallb is_tab tb = true /\ forallb is_digit ds = true /\ ds <> []) /\
+  (forall tb ds lit, forallb is_tab tb = true -> forallb is_digit ds = true -> ds <> [] ->
+     ws_parse (ws_line tb ds lit) = Some (tb, ds, lit) /\ skel_line (ws_line tb ds lit) = ws_line tb ds []) /\
+  (forall l, ws_parse l = None -> skel_line l = erase_pos l /\ ws_parse (erase_pos l) = None).
+Proof.
+  split; [exact ws_parse_spec|]. split.
+  - intros tb ds lit T D N. split; [apply ws_parse_line; assumption|]. unfold skel_line. rewrite ws_parse_line by assumption. reflexivity.
+  - intros l H. split; [unfold skel_line; rewrite H; reflexivity|apply erase_pos_not_ws; exact H].
+Qed.
+
+Lemma skel_line_op l l' : skel_line l = skel_line l' -> erase_lop (op_of_line l) = erase_lop (op_of_line l').
+Proof.
+  intros E. unfold op_of_line.
+  destruct (ws_parse l) as [[[tb ds] lit]|] eqn:W; destruct (ws_parse l') as [[[tb' ds'] lit']|] eqn:W'.
+  - apply skel_line_ws in W, W'. rewrite E in W. rewrite W in W'. injection W' as _ ->. reflexivity.
+  - apply skel_line_ws in W. apply skel_line_not_ws in W'. rewrite E in W. congruence.
+  - apply skel_line_ws in W'. apply skel_line_not_ws in W. rewrite E in W. congruence.
+  - cbn [erase_lop]. unfold skel_line in E. rewrite W, W' in E. rewrite E. reflexivity.
+Qed.
+
+(* lines hold no LF, and neither do their skeletons *)
+Lemma split_lf_no_lf s : forallb no_lf (split_lf s) = true.
+Proof.
+  induction s as [|c s IH]; [reflexivity|]. cbn [split_lf]. destruct (Byte.eqb c x0a) eqn:E.
+  - cbn [forallb]. rewrite IH. reflexivity.
+  - destruct (split_lf s) as [|h t]; [cbn; rewrite E; reflexivity|].
+    cbn [forallb] in *. apply andb_prop in IH as [Hh Ht]. rewrite Ht, andb_true_r.
+    unfold no_lf, no_byte in *. cbn [forallb]. rewrite E, Hh. reflexivity.
+Qed.
+Lemma split_lf_nonempty s : split_lf s <> [].
+Proof. destruct s as [|c s]; cbn [split_lf]; [discriminate|]. destruct (Byte.eqb c x0a); [discriminate|]. destruct (split_lf s); discriminate. Qed.
+Lemma no_lf_app a b : no_lf (a ++ b) = no_lf a && no_lf b.
+Proof. unfold no_lf, no_byte. apply forallb_app. Qed.
+Lemma no_lf_rev a : no_lf (rev a) = no_lf a.
+Proof.
+  induction a as [|c a IH]; [reflexivity|]. cbn [rev]. rewrite no_lf_app, IH. unfold no_lf, no_byte. cbn [forallb].
+  rewrite andb_true_r. apply andb_comm.
+Qed.
+Lemma erase_pos_no_lf l : no_lf l = true -> no_lf (erase_pos l) = true.
+Proof.
+  intros H. unfold erase_pos. destruct (span is_tab l) as [tb r]. destruct (strip err_prefix r); [|exact H].
+  destruct (strip [x7d] (rev l)) as [a|] eqn:S1; [|exact H]. destruct (span is_digit a) as [c a1] eqn:S2.
+  destruct (strip col_rev a1) as [a2|] eqn:S3; [|exact H]. destruct (span is_digit a2) as [ln a3] eqn:S4.
+  destruct (strip line_rev a3) as [a4|] eqn:S5; [|exact H].
+  apply strip_spec in S1, S3, S5. apply span_spec in S2 as [-> _]. apply span_spec in S4 as [-> _]. subst a1 a3.
+  rewrite <- no_lf_rev, S1 in H. rewrite !no_lf_app in H.
+  repeat (apply andb_prop in H as [? H]). rewrite no_lf_app, no_lf_rev, H. vm_compute. reflexivity.
+Qed.
+Lemma skel_line_no_lf l : no_lf l = true -> no_lf (skel_line l) = true.
+Proof.
+  intros H. unfold skel_line. destruct (ws_parse l) as [[[tb ds] lit]|] eqn:W; [|apply erase_pos_no_lf; exact H].
+  apply ws_parse_spec in W as [-> _]. unfold ws_line in *. rewrite !no_lf_app in *.
+  repeat (apply andb_prop in H as [? H]). repeat (apply andb_true_intro; split); try assumption; reflexivity.
+Qed.
+Lemma code_lines_no_lf c : forallb no_lf (code_lines c) = true.
+Proof.
+  unfold code_lines. pose proof (split_lf_no_lf c) as H. induction (split_lf c) as [|l L IH]; [reflexivity|].
+  cbn [forallb] in H. apply andb_prop in H as [Hl HL]. cbn [filter]. destruct (negb (is_date l)); [cbn [forallb]; rewrite Hl|]; apply IH; exact HL.
+Qed.
+
+Lemma join_lf_inj a b : a <> [] -> b <> [] -> forallb no_lf a = true -> forallb no_lf b = true -> join_lf a = join_lf b -> a = b.
+Proof. intros Na Nb Ha Hb E. rewrite <- (split_join a Na Ha), <- (split_join b Nb Hb), E. reflexivity. Qed.
+
+(* equal skeletons: line by line the two files are the same statement, up to literal contents and error positions *)
+Lemma skeleton_lines c c' : code_lines c <> [] -> code_lines c' <> [] -> skel_of_code c = skel_of_code c' ->
+  map erase_lop (ops_of_code c) = map erase_lop (ops_of_code c').
+Proof.
+  unfold skel_of_code, ops_of_code. intros N N' E.
+  pose proof (code_lines_no_lf c) as H. pose proof (code_lines_no_lf c') as H'.
+  apply join_lf_inj in E.
+  - revert E H H'. generalize (code_lines c) (code_lines c'). clear. induction l as [|x l IH]; intros l' E; destruct l' as [|x' l']; try discriminate; [reflexivity|].
+    cbn [map] in *. injection E as Ex El. intros H H'. rewrite (skel_line_op _ _ Ex). f_equal.
+    cbn [forallb] in H, H'. apply andb_prop in H as [_ H]. apply andb_prop in H' as [_ H']. apply IH; assumption.
+  - destruct (code_lines c); [congruence|discriminate].
+  - destruct (code_lines c'); [congruence|discriminate].
+  - clear - H. induction (code_lines c) as [|x l IH]; [reflexivity|]. cbn [forallb map] in *. apply andb_prop in H as [Hx H].
+    rewrite (skel_line_no_lf _ Hx). apply IH. exact H.
+  - clear - H'. induction (code_lines c') as [|x l IH]; [reflexivity|]. cbn [forallb map] in *. apply andb_prop in H' as [Hx H].
+    rewrite (skel_line_no_lf _ Hx). apply IH. exact H.
+Qed.
+
+(* the literals found in the lines of a file hold no LF *)
+Lemma code_lits_no_lf c : forallb no_lf (op_lits (ops_of_code c)) = true.
+Proof.
+  unfold ops_of_code. pose proof (code_lines_no_lf c) as H. induction (code_lines c) as [|l L IH]; [reflexivity|].
+  cbn [forallb map] in *. apply andb_prop in H as [Hl H]. unfold op_of_line at 1.
+  destruct (ws_parse l) as [[[tb ds] lit]|] eqn:W; cbn [op_lits]; [|apply IH; exact H].
+  cbn [forallb]. rewrite (IH H), andb_true_r. apply ws_parse_spec in W as [-> _]. unfold ws_line in Hl. rewrite !no_lf_app in Hl.
+  repeat (apply andb_prop in Hl as [? Hl]). assumption.
+Qed.
+
+Section CodeDecision.
+Variable St : Type.
+Variable sem : sink -> bytes -> bytes.
+Variable ev_str : St -> bytes -> bytes.
+Variable ev_bool : St -> bytes -> bool.
+Variable code : bytes -> nat -> St -> option (St * bytes * nat).
+(* what is rendered does not depend on the Line/Col numbers written into templ.Error values *)
+Hypothesis code_pos : forall l pc s, code l pc s = code (erase_pos l) pc s.
+
+Lemma erase_lop_sim P : forall P', map erase_lop P = map erase_lop P' -> Forall2 (op_sim St code) P P'.
+Proof.
+  induction P as [|o P IH]; intros P' E; destruct P' as [|o' P']; try discriminate; [constructor|].
+  cbn [map] in E. injection E as Eo EP. constructor; [|apply IH; exact EP].
+  destruct o as [i l|k e|c n|c]; destruct o' as [i' l'|k' e'|c' n'|c']; cbn [erase_lop] in Eo; try discriminate; cbn [op_sim].
+  - injection Eo as ->. reflexivity.
+  - injection Eo as -> ->. split; reflexivity.
+  - injection Eo as -> ->. split; reflexivity.
+  - injection Eo as Eo. intros pc s. rewrite (code_pos c), (code_pos c'), Eo. reflexivity.
+Qed.
+
+(* The repaired HasChanged on the generated files themselves.  Both files are well-formed generator outputs and the
+   text file is written from the literals that are in the new code; then a negative answer means: the program that
+   is the OLD file, looking its strings up in the NEW text file, renders from every statement, in every state, what
+   the program that is the NEW file renders. *)
+Theorem code_decision_sound o o' ls es ls' es' c c' : wf_code c = true -> wf_code c' = true -> ls' = op_lits (ops_of_code c') ->
+  has_changed bytes_eqb (gen_out_code o ls es c) (gen_out_code o' ls' es' c') = false ->
+  forall fuel pc s,
+  exec St sem ev_str ev_bool code (lk_dev (text_file ls')) fuel (ops_of_code c) pc s =
+  exec St sem ev_str ev_bool code lk_normal fuel (ops_of_code c') pc s.
+Proof.
+  intros W W' -> H. apply (has_changed_false _ _ bytes_eqb_eq) in H as [_ E]. cbn [gen_out_code g_skel] in E.
+  unfold wf_code in W, W'.
+  apply exec_sim.
+  - apply erase_lop_sim. apply skeleton_lines; [destruct (code_lines c); [discriminate|discriminate]|destruct (code_lines c'); [discriminate|discriminate]|exact E].
+  - apply numbered_lookup; [destruct (code_lines c'); [discriminate|exact W']|apply code_lits_no_lf].
+Qed.
+End CodeDecision.
